@@ -30,4 +30,10 @@ let () =
       of_chars (print_dimacs (to_opt (to_list (to_pair to_chars to_chars)) h)
                   (to_opt (to_list to_chars) names) (to_zbig n) (to_cnf_big f))
                                   | _ -> raise (Bad "arity"));
+  (* the writer before the repair of D4 (commit 7278321): kept to recognise a regression *)
+  register "print_dimacs_as_found" (function [h; names; n; f] ->
+      of_chars (print_dimacs_as_found (to_opt (to_list (to_pair to_chars to_chars)) h)
+                  (to_opt (to_list to_chars) names) (to_zbig n) (to_cnf_big f))
+                                  | _ -> raise (Bad "arity"));
+  register "within_comment" (function [p; t] -> of_chars (within_comment (to_chars p) (to_chars t)) | _ -> raise (Bad "arity"));
   register "parse_dimacs" (function [u; t] -> of_result (parse_dimacs (to_bool u) (to_chars t)) | _ -> raise (Bad "arity"))
